@@ -115,7 +115,8 @@ func (c *allOfConstraintCompiler) extendWith(node ischema.Node, name string) {
 		fromAdditionalProperties := fromAdditionalProperties.(*constraint.AdditionalProperties)
 		if toAdditionalProperties := toObject.Constraint(constraint.AdditionalPropertiesConstraintType); toAdditionalProperties != nil { //nolint:lll
 			toAdditionalProperties := toAdditionalProperties.(*constraint.AdditionalProperties)
-			if !fromAdditionalProperties.IsEqual(*toAdditionalProperties) {
+			if fromAdditionalProperties.Mode() != toAdditionalProperties.Mode() ||
+				!fromAdditionalProperties.IsEqual(*toAdditionalProperties) {
 				panic(errs.ErrConflictAdditionalProperties.F())
 			}
 		} else {
